@@ -10,7 +10,8 @@ import Verif.Model.Policy
                           `keysAreEqual`                         (thumbprint equality, an input)
   * `acme/account.go`     `ExternalAccountKey.AlreadyBound`     → field `bound`
                           `ExternalAccountKey.BindTo`           → `bindTo`
-  * `acme/api/account.go` `NewAccount` (after the middleware)   → `step` (three store-visible steps)
+  * `acme/api/account.go` `NewAccount` (after the middleware)   → `step` (the store-visible steps; since 1f3b0b9 a
+                                                                   failed key update deactivates the stored account)
   * `acme/db/nosql/eab.go` `GetExternalAccountKey`,
                           `UpdateExternalAccountKey`            → `getKey` + provisioner test, `updateKey`
   * `acme/db/nosql/account.go` `CreateAccount`                  → the `.validated` step
@@ -32,8 +33,14 @@ import Verif.Model.Policy
   `validated`  : `CreateAccount` (compare-and-swap on the key-id index, then the account record
                  under a fresh random id),
   `created`    : `BindTo` on the request's private copy, then `UpdateExternalAccountKey`
-                 (under `externalAccountKeyMutex`: re-read, provisioner tests, compare-and-swap
-                 *from the value just read*).
+                 (under `externalAccountKeyMutex`: re-read, provisioner tests, **refusal when the re-read
+                 record is already bound to another account** (commit 1f3b0b9), compare-and-swap from the
+                 value just read),
+  `undo`       : after a failed key update `NewAccount` sets the account it has just stored to
+                 `deactivated` (`db.UpdateAccount`, commit 1f3b0b9) and answers the error.
+
+  Account ids are fresh random strings: the id a request has just been given is never the id an
+  already bound key names, so `old.AccountID != eak.AccountID` is `true` whenever `old` is bound.
 -/
 namespace Verif.EAB
 
@@ -79,6 +86,8 @@ structure State where
   keys : List EKey
   accts : List (Nat × Nat)  -- (account id, account key thumbprint); the key-id index is `accts.map (·.2)`
   next : Nat                -- stands for the fresh random account id
+  via : List (Nat × Nat) := []   -- ghost: (account id, id of the key it was stored for; 0 = none)
+  dead : List Nat := []          -- accounts whose status is `deactivated`
   deriving DecidableEq, Repr
 
 /-- `created acc via`: 201 for account `acc`; `via` is the binding key that was bound (0 = none). -/
@@ -142,6 +151,7 @@ inductive Pc where
   | start
   | validated (k : Option EKey)
   | created (k : EKey) (acc : Nat)
+  | undo (acc : Nat) (e : Err)        -- the key update failed: the stored account is to be deactivated
   | done (r : Resp)
   deriving DecidableEq, Repr
 
@@ -150,16 +160,17 @@ structure Thread where
   pc : Pc
   deriving DecidableEq, Repr
 
-/-- state after `CreateAccount` succeeded for a key with this thumbprint -/
-def addAcct (st : State) (thumb : Nat) : State :=
-  { st with accts := st.accts ++ [(st.next, thumb)], next := st.next + 1 }
+/-- state after `CreateAccount` succeeded for a key with this thumbprint, on behalf of binding key `kid` -/
+def addAcct (st : State) (thumb kid : Nat) : State :=
+  { st with accts := st.accts ++ [(st.next, thumb)], next := st.next + 1, via := st.via ++ [(st.next, kid)] }
 
-/-- first step: payload checks, account-by-key lookup, `validateExternalAccountBinding` (reads only).
+/-- first step: payload checks, account-by-key lookup (`extractJWK`: a deactivated account ⇒ 401),
+    `validateExternalAccountBinding` (reads only).
     `inl` = the request is answered, `inr k` = go on to `CreateAccount` holding the key copy `k`. -/
 def stepStart (st : State) (r : Req) : Resp ⊕ Option EKey :=
   if !r.payloadOk then .inl (.err .malformed)
   else match acctOfKey st r.outerKey with
-    | some a => .inl (.existing a)
+    | some a => if st.dead.contains a then .inl (.err .unauthorized) else .inl (.existing a)
     | none =>
       if r.onlyExisting then .inl (.err .accountDoesNotExist)
       else match validateEAB st r with
@@ -172,20 +183,26 @@ def stepCreate (st : State) (r : Req) (k : Option EKey) : State × (Resp ⊕ (EK
   | some _ => (st, .inl (.err .serverInternal))
   | none =>
     match k with
-    | none => (addAcct st r.outerKey, .inl (.created st.next 0))
-    | some k => (addAcct st r.outerKey, .inr (k, st.next))
+    | none => (addAcct st r.outerKey 0, .inl (.created st.next 0))
+    | some k => (addAcct st r.outerKey k.id, .inr (k, st.next))
 
 /-- third step: `BindTo` on the private copy, then `UpdateExternalAccountKey` (re-read, provisioner
-    tests, compare-and-swap from the value just read — which therefore always succeeds) -/
-def stepUpdate (st : State) (r : Req) (k : EKey) (acc : Nat) : State × Resp :=
-  if k.bound then (st, .err .unauthorized)   -- BindTo refuses
+    tests, refusal when the record is bound by now, compare-and-swap from the value just read).
+    `inl` = answered, `inr (acc, e)` = the update failed with `e`: go on to deactivate `acc`. -/
+def stepUpdate (st : State) (r : Req) (k : EKey) (acc : Nat) : State × (Resp ⊕ (Nat × Err)) :=
+  if k.bound then (st, .inl (.err .unauthorized))   -- BindTo refuses (no update, no deactivation)
   else
     match getKey st k.id with
-    | none => (st, .err .serverInternal)
+    | none => (st, .inr (acc, .serverInternal))
     | some old =>
-      if old.prov ≠ r.prov then (st, .err .serverInternal)
-      else if old.prov ≠ k.prov then (st, .err .serverInternal)
-      else ({ st with keys := setKey st.keys (bindTo k acc) }, .created acc k.id)
+      if old.prov ≠ r.prov then (st, .inr (acc, .serverInternal))
+      else if old.prov ≠ k.prov then (st, .inr (acc, .serverInternal))
+      else if old.bound then (st, .inr (acc, .unauthorized))        -- bound to another account by now
+      else ({ st with keys := setKey st.keys (bindTo k acc) }, .inl (.created acc k.id))
+
+/-- fourth step, only after a failed key update: the account just stored is deactivated -/
+def stepUndo (st : State) (acc : Nat) (e : Err) : State × Resp :=
+  ({ st with dead := acc :: st.dead }, .err e)
 
 /-- One store-visible step of one request. -/
 def step (st : State) (t : Thread) : State × Thread :=
@@ -200,19 +217,26 @@ def step (st : State) (t : Thread) : State × Thread :=
     | (s, .inr (k, acc)) => (s, { t with pc := .created k acc })
   | .created k acc =>
     match stepUpdate st t.req k acc with
+    | (s, .inl x) => (s, { t with pc := .done x })
+    | (s, .inr (a, e)) => (s, { t with pc := .undo a e })
+  | .undo acc e =>
+    match stepUndo st acc e with
     | (s, x) => (s, { t with pc := .done x })
   | .done _ => (st, t)
 
 def Thread.resp (t : Thread) : Option Resp := match t.pc with | .done r => some r | _ => none
 
-/-- A request run alone (its three steps back to back). -/
+/-- A request run alone (its steps back to back). -/
 def handle (st : State) (r : Req) : State × Resp :=
   match stepStart st r with
   | .inl x => (st, x)
   | .inr k =>
     match stepCreate st r k with
     | (s, .inl x) => (s, x)
-    | (s, .inr (k, acc)) => stepUpdate s r k acc
+    | (s, .inr (k, acc)) =>
+      match stepUpdate s r k acc with
+      | (s', .inl x) => (s', x)
+      | (s', .inr (a, e)) => stepUndo s' a e
 
 /-- A sequential history. -/
 def runHist (st : State) : List Req → State × List Resp
@@ -292,5 +316,82 @@ def orderGate (st : State) (requireEAB : Bool) (prov acc : Nat)
       | some .bad => .engineError
       | some .crash => .crash
       | some (.ok e) => allAllowed e idents
+
+/-! ### the store calls behind each step, in source order
+
+  Re-derived from the source with go/ast on every run (stage `order` of the C20 harness) and compared
+  with this table by the driver: the calls on `db` (and `BindTo`) that `extractJWK`,
+  `validateExternalAccountBinding` and `NewAccount` make, in the order they appear. The step model
+  above groups them as `start` = the two reads, `validated` = `CreateAccount`, `created` = `BindTo` +
+  `UpdateExternalAccountKey`, `undo` = `UpdateAccount` (only after a failed key update); a call added, removed or moved makes the stage disagree. -/
+
+def callsExtractJWK : List String := ["db.GetAccountByKeyID"]
+def callsValidateEAB : List String := ["db.GetExternalAccountKey"]
+def callsNewAccount : List String :=
+  ["validateExternalAccountBinding", "db.CreateAccount", "eak.BindTo", "db.UpdateExternalAccountKey", "db.UpdateAccount"]
+
+/-- the calls of one request in program order, by step -/
+def stepCalls : List (String × List String) :=
+  [("start", callsExtractJWK ++ callsValidateEAB), ("validated", ["db.CreateAccount"]),
+   ("created", ["eak.BindTo", "db.UpdateExternalAccountKey"]), ("undo", ["db.UpdateAccount"])]
+
+/-! ### an ACME provisioner on its way from the configuration file to the admin database and back
+
+  `authority/provisioners.go`: `ProvisionerToLinkedca` (ACME case; used by the one-time migration of
+  the `ca.json` provisioners when remote management is first enabled, and by export) and
+  `ProvisionerToCertificates` (ACME case; every load from the admin database), with
+  `challengesToLinkedca/ToCertificates` and `attestationFormatsToLinkedca/ToCertificates`. After the
+  migration the authority serves `migrate p`, never `p` again. Strings are numbers; the attestation
+  roots are one opaque value; claims and template options are not modelled (C06/C03). -/
+
+inductive Challenge where
+  | http01 | dns01 | tlsAlpn01 | deviceAttest01 | wireOidc01 | wireDpop01
+  deriving DecidableEq, Repr
+
+inductive AttFormat where | apple | step | tpm
+  deriving DecidableEq, Repr
+
+/-- `provisioner.ACME` (the fields the ACME handlers decide on) -/
+structure AcmeProv where
+  requireEAB : Bool
+  forceCN : Bool
+  termsOfService : Nat
+  website : Nat
+  caaIdentities : List Nat
+  challenges : List Challenge
+  formats : List AttFormat
+  roots : Nat
+  deriving DecidableEq, Repr
+
+/-- `linkedca.ACMEProvisioner`: its challenge enumeration has the four standard types only -/
+structure LinkedAcme where
+  requireEab : Bool
+  forceCn : Bool
+  termsOfService : Nat
+  website : Nat
+  caaIdentities : List Nat
+  challenges : List Challenge      -- never a wire challenge
+  formats : List AttFormat
+  roots : Nat
+  deriving DecidableEq, Repr
+
+def isWire : Challenge → Bool
+  | .wireOidc01 | .wireDpop01 => true
+  | _ => false
+
+/-- `ProvisionerToLinkedca`, ACME case (`challengesToLinkedca` has no case for the wire challenges) -/
+def toLinked (p : AcmeProv) : LinkedAcme :=
+  { requireEab := p.requireEAB, forceCn := p.forceCN, termsOfService := p.termsOfService, website := p.website,
+    caaIdentities := p.caaIdentities, challenges := p.challenges.filter (fun c => !isWire c),
+    formats := p.formats, roots := p.roots }
+
+/-- `ProvisionerToCertificates`, ACME case -/
+def toCert (l : LinkedAcme) : AcmeProv :=
+  { requireEAB := l.requireEab, forceCN := l.forceCn, termsOfService := l.termsOfService, website := l.website,
+    caaIdentities := l.caaIdentities, challenges := l.challenges.filter (fun c => !isWire c),
+    formats := l.formats, roots := l.roots }
+
+/-- what the authority serves after the migration -/
+def migrate (p : AcmeProv) : AcmeProv := toCert (toLinked p)
 
 end Verif.EAB
